@@ -97,10 +97,12 @@ def run(tier, seed, replay=None):
         ck.note('infrastructure: ' + msg)
     for idx, rec in v['rejected'][:8]:
         case = cases[rec.get('ci', 1) - 1]
-        c2 = os.path.join(wd, 'confirm.txt'); t2 = os.path.join(wd, 'confirm.ndjson')
-        write_cases(c2, [case]); sh([exe, c2, t2], timeout=60)
-        v2 = validate_trace(wd, 'Trace_Inv', 'Trace_Inv.cfg', t2, nsplit=1)
-        if v2['rejected']:
-            ck.violation('%s a=0x%x b=0x%x' % case[:3], 'recorded result fails its certificate: %s' % json.dumps(vlib.compact(rec))[:300], dict(cases=[list(case)], event=rec))
+        ci = rec.get('ci', 1)
+        how = vlib.confirm_case(wd, 'Trace_Inv', 'Trace_Inv.cfg', lambda cp, tp: [exe, cp, tp], write_cases, cases, ci)
+        if how:
+            ck.violation(('%s a=0x%x b=0x%x' % case[:3]) + (vlib.HIST if how == 'history' else ''), 'recorded result fails its certificate: %s' % json.dumps(vlib.compact(rec))[:300],
+                         dict(cases=[list(x) for x in (cases[:ci] if how == 'history' else [case])], event=rec))
+        else:
+            ck.note('rejection not reproduced on re-run (neither alone nor after its process history): %s' % str(case))
     ck.cov['cases'] = len(cases)
     return ck.finish()
